@@ -231,6 +231,27 @@ func (st *c09State) prepare(w *engine.Worker, cs *c09Case) error {
 		s.Pre = "keep"
 		_, err := w.Exec(st.g.Sim, &s, st.timeout)
 		return err
+	case "corrupt":
+		// a complete earlier output of the SAME configuration whose files were damaged in
+		// place: same names, same lengths, different bytes (zero-filled blocks after a
+		// power loss, an in-place edit)
+		for name, data := range cs.ref.Files {
+			if !strings.HasSuffix(name, ".go") {
+				continue
+			}
+			fp := filepath.Join(w.Mod, name)
+			if err := os.MkdirAll(filepath.Dir(fp), 0o755); err != nil {
+				return err
+			}
+			junk := bytes.Repeat([]byte{0}, len(data))
+			if len(name)%2 == 0 {
+				junk = bytes.Repeat([]byte("x"), len(data))
+			}
+			if err := os.WriteFile(fp, junk, 0o644); err != nil {
+				return err
+			}
+		}
+		return nil
 	case "file":
 		// a regular file where the token package directory belongs
 		dir := filepath.Join(w.Mod, cs.spec.OutDir())
@@ -327,7 +348,7 @@ func RunC09(c *Ctx) error {
 
 	// ---- configurations ----
 	envs := []c09Env{{}, {Out: "out"}, {Out: "out/deeper"}, {Out: "ABS:gen"}, {Pkg: true}, {Cwd: "a/b"}, {Cwd: "a/b", Out: "sub"}, {Cwd: "a/b", Pkg: true}}
-	pres := []string{"", "other", "debris", "file"}
+	pres := []string{"", "other", "debris", "file", "corrupt"}
 	quickFlags := [][]string{{}, {"-zip"}, {"-v", "-a"}, {"-no_lexer"}, {"-debug_lexer", "-debug_parser"}, {"-zip", "-no_lexer", "-v"}}
 	var cfgs []*c09Case
 	seen := map[string]bool{}
